@@ -13,6 +13,8 @@ def run(run, model):
     run.do(inv.selection, model)
     run.do(inv.install, model)
     run.do(inv.marker_agreement, model)
+    from . import common
+    run.do(common.truth_rule, model, "C03.truth")
     from . import c17
     run.do(c17.invariant_decorator_table, model, "C03.decorator-lists")
     run.do(inv.phases, model)
